@@ -114,6 +114,8 @@ def _history_probe(w, ctx):
     if w.name == 'linf3':
         return
     psi, H = w.psi, w.K
+    if not np.array_equal(psi.qd, H.qd):
+        return     # after zero_qnumbers() state and Hamiltonian no longer share physical quantum numbers (documented precondition)
     L = psi.nsites
     if L < 2:
         return
